@@ -31,6 +31,12 @@ structure Cfg where
   levels : Nat
   deriving DecidableEq, Repr
 
+/-- what the constructor asserts (`assert(ticksPerWheel > 0 && (ticksPerWheel & (ticksPerWheel - 1)) == 0); assert(numWheels > 0)`) plus a
+positive tick (the C++ divides by `_tickDuration.count()`).  The model is total for every `Cfg` (`n % 0 = n`, `Int.tdiv x 0 = 0` in
+Lean), but it describes the C++ only for valid ones: `& _tickMask` is `% slots` only for a power of two (`W0_mask_is_mod`), and a
+zero tick is a division by zero in C++.  The drivers refuse invalid geometries; the theorems that need it say so. -/
+def Cfg.Valid (c : Cfg) : Prop := 0 < c.tick ∧ 0 < c.levels ∧ ∃ k, c.slots = 2 ^ k
+
 /-- `struct TimerEntry` without the callback and the list pointers -/
 structure Entry where
   id : Nat
